@@ -38,18 +38,51 @@ def sector_mask(n, nelec):
     return m
 
 
-def back_to_original_order(mps, n):
-    order = [b.dof for b in mps.model.basis]
-    v = np.asarray(mps.todense()).reshape((2,) * n)
-    return np.transpose(v, np.argsort(order)).ravel(), order
+def to_original_order(psi, order, n, fermionic):
+    """psi: dense vector whose tensor factor k is spin orbital order[k] -> the same state in orbital order 0..n-1.
+    With the Jordan-Wigner-corrected exchange the basis state |b_0 b_1 ..> of the new chain is
+    prod_k (c+_{order[k]})^{b_k} |0>, so re-sorting the creation operators gives the parity of the inversions."""
+    out = np.zeros_like(psi)
+    for idx in range(2 ** n):
+        bits = [(idx >> (n - 1 - k)) & 1 for k in range(n)]
+        occ = [0] * n
+        for k, b in enumerate(bits):
+            occ[order[k]] = b
+        t = 0
+        for b in occ:
+            t = (t << 1) | b
+        sign = 1
+        if fermionic:
+            seq = [order[k] for k, b in enumerate(bits) if b]
+            inv = sum(1 for i in range(len(seq)) for j in range(i + 1, len(seq)) if seq[i] > seq[j])
+            sign = -1 if inv % 2 else 1
+        out[t] = sign * psi[idx]
+    return out
 
 
-def one(case):
+class SwapCounter:
+    """counts the exchanges Mpo.try_swap_site actually performs (harness-side wrapper, nothing in /repo is changed)"""
+    def __init__(self):
+        self.n = 0
+        self.orig = Mpo.try_swap_site
+        counter = self
+
+        def wrapped(self_, new_model, swap_jw, algo="Hopcroft-Karp"):
+            if [b.dofs for b in self_.model.basis] != [b.dofs for b in new_model.basis]:
+                counter.n += 1
+            return counter.orig(self_, new_model, swap_jw, algo=algo)
+        Mpo.try_swap_site = wrapped
+
+    def close(self):
+        Mpo.try_swap_site = self.orig
+
+
+def attempt(case, seed, rseed):
     nsp = case["nsp"]
     n = 2 * nsp
-    h, eri = L.make_integrals(nsp, case["seed"], case["kind"])
+    h, eri = L.make_integrals(nsp, seed, case["kind"])
     sh, aseri = h_qc.int_to_h(h, eri)
-    out = {"case": case}
+    out = {}
     if not np.any(sh) and not np.any(aseri):
         out["empty"] = True
         return out
@@ -62,9 +95,11 @@ def one(case):
     scale = max(1.0, float(np.abs(H).max()))
     ofs = OFSMAP[case["ofs"]] if case["ofs"] else None
     M = case["M"]
-    np.random.seed(case["rseed"])
+    np.random.seed(rseed)
     mps = Mps.random(model, case["nelec"], 16, percent=1.0)
     cc = lambda: CompressConfig(CompressCriteria.fixed, max_bonddim=M, ofs=ofs, ofs_swap_jw=case["swap_jw"])
+    na, nb = L.number_ops(n)
+    cnt = SwapCounter()
     try:
         if case["mode"] == "tdvp":
             mps.compress_config = CompressConfig(CompressCriteria.fixed, max_bonddim=16)
@@ -79,27 +114,60 @@ def one(case):
                 t += case["dt"]
             out["e1"] = float(np.real(mps.expectation(mpo)))
             exact = scipy.linalg.expm(-1j * H * t) @ psi0
-            v, order = back_to_original_order(mps, n)
+            order = [b.dof for b in mps.model.basis]
+            v = to_original_order(np.asarray(mps.todense()).ravel(), order, n, case["swap_jw"])
             out["order"] = order
             out["overlap"] = float(abs(np.vdot(exact, v)))
             out["absdev"] = float(np.abs(np.abs(v) - np.abs(exact)).max())
+            out["rayleigh"] = float(np.real(np.vdot(v, H @ v)))
             out["norm"] = float(np.linalg.norm(v))
+            out["order_mpo"] = [b.dof for b in mpo.model.basis]
             out["spec"] = float(np.abs(np.linalg.eigvalsh(mpo.todense()) - np.linalg.eigvalsh(H)).max() / scale)
         else:
             msk = sector_mask(n, case["nelec"])
             w = np.linalg.eigvalsh(H[np.ix_(msk, msk)])
             out["exact"] = float(w[0])
-            mps.optimize_config.procedure = [[cc(), 0.4], [cc(), 0.2], [cc(), 0.1], [cc(), 0], [cc(), 0], [cc(), 0], [cc(), 0]]
+            nsweep = case.get("sweeps", 7)
+            perc = [0.4, 0.2, 0.1] + [0] * 20
+            mps.optimize_config.procedure = [[cc(), perc[k]] for k in range(nsweep)]
             mps.optimize_config.method = "2site"
             energies, res = optimize_mps(mps.copy(), mpo)
             out["reported"] = float(min(energies))
-            out["order"] = [b.dof for b in res.model.basis]
+            order = [b.dof for b in res.model.basis]
+            out["order"] = order
+            out["order_mpo"] = [b.dof for b in mpo.model.basis]
+            psi = np.asarray(res.todense()).ravel()
+            psi = psi / np.linalg.norm(psi)
+            v = to_original_order(psi, order, n, case["swap_jw"])
+            out["rayleigh"] = float(v @ H @ v)
+            out["n_alpha"] = float(v @ na @ v)
+            out["n_beta"] = float(v @ nb @ v)
+            # the documented recipe (plain exchange): an MPO rebuilt from the model of the returned state
             out["rebuilt"] = float(np.real(res.expectation(Mpo(res.model))))
             out["spec"] = float(np.abs(np.linalg.eigvalsh(mpo.todense()) - np.linalg.eigvalsh(H)).max() / scale)
         out["scale"] = scale
     except AssertionError:
         tb = traceback.extract_tb(sys.exc_info()[2])[-1]
         out["raised"] = {"where": "%s:%s" % (tb.name, tb.line)}
+    finally:
+        cnt.close()
+    out["nswaps"] = cnt.n
+    return out
+
+
+def one(case):
+    """retries with other seeds when the run dies of the registered swap_site assertion (known finding); skips are counted"""
+    skips = 0
+    out = None
+    for k in range(case.get("retries", 0) + 1):
+        out = attempt(case, case["seed"] + 7919 * k, case["rseed"] + k)
+        out["used_seed"], out["used_rseed"] = case["seed"] + 7919 * k, case["rseed"] + k
+        if "raised" in out and "auxiliary_dummy_primary_ops" in out["raised"]["where"]:
+            skips += 1
+            continue
+        break
+    out["case"] = case
+    out["skips"] = skips
     return out
 
 
